@@ -245,6 +245,16 @@ func vxShared(fr *frame, args []value) value {
 		s.shared[v] = true
 	case *value:
 		s.shared[v] = true
+		if v != nil {
+			if st, ok := (*v).(structure); ok {
+				for k := range st {
+					s.shared[&st[k]] = true
+					if m, ok := st[k].(*omap); ok && m != nil {
+						s.shared[m] = true
+					}
+				}
+			}
+		}
 	default:
 		fr.i.abort("Shared: unsupported %T", itf.v)
 	}
